@@ -499,6 +499,7 @@ func Run(c *common.Ctx) error {
 		sweepN = 0 // the full product
 	}
 	w.sweepVerifier(c, sweepN)
+	w.sweepConstructors(c)
 	w.sweepRegistry(c)
 	for _, p := range w.panics {
 		c.Note("panic: %s", p)
